@@ -29,7 +29,8 @@ from pathlib import Path
 
 from harness.core import TranslationError
 
-from .common import HEADER, body_no_doc, fail, find_func, parse
+from . import c01_norm as N
+from .common import HEADER, fail, find_func, parse
 
 PRELUDE = ("From Coq Require Import List String.\nImport ListNotations.\nOpen Scope string_scope.\n")
 
@@ -57,7 +58,37 @@ def _is_self_attr(node, attr=None) -> bool:
             and (attr is None or node.attr == attr))
 
 
-def _model_groups(cls: ast.ClassDef) -> list[str]:
+def _norm(scope: N.Scope, fn: ast.FunctionDef) -> list:
+    """the function's body after the general normalisations of translator/c01_norm.py, without no-op statements"""
+    return [s for s in N.Normaliser(scope).normalise(fn) if not N.is_noise(s)]
+
+
+def _str_seq(node, scope: N.Scope, depth=0) -> list[str]:
+    """tuple / list of string literals; a Name is resolved to its single class- or module-level assignment;
+    `a + b` and `(*a, "x")` of such sequences are accepted"""
+    if depth > 4:
+        fail(node, "constant resolution too deep")
+    if isinstance(node, (ast.Tuple, ast.List)):
+        out = []
+        for e in node.elts:
+            if isinstance(e, ast.Constant) and isinstance(e.value, str):
+                out.append(e.value)
+            elif isinstance(e, ast.Starred):
+                out += _str_seq(e.value, scope, depth + 1)
+            else:
+                fail(node, "MODEL_GROUPS must be a sequence of string literals")
+        return out
+    if isinstance(node, ast.Name):
+        v = scope.constant(node.id)
+        if v is None:
+            fail(node, "name without a single module-level assignment")
+        return _str_seq(v, scope, depth + 1)
+    if isinstance(node, ast.BinOp) and isinstance(node.op, ast.Add):
+        return _str_seq(node.left, scope, depth + 1) + _str_seq(node.right, scope, depth + 1)
+    fail(node, "MODEL_GROUPS must be a tuple of string literals")
+
+
+def _model_groups(cls: ast.ClassDef, scope: N.Scope) -> list[str]:
     found = []
     for st in cls.body:
         tgt = None
@@ -67,13 +98,9 @@ def _model_groups(cls: ast.ClassDef) -> list[str]:
             tgt, val = st.targets[0].id, st.value
         if tgt == "MODEL_GROUPS":
             found.append(val)
-    if len(found) != 1:
+    if len(found) != 1 or found[0] is None:
         raise TranslationError(f"MODEL_GROUPS: {len(found)} class-level assignments")
-    val = found[0]
-    if not isinstance(val, ast.Tuple) or not all(isinstance(e, ast.Constant) and isinstance(e.value, str) for e in val.elts):
-        fail(val, "MODEL_GROUPS must be a tuple of string literals")
-    # nothing else in the module may rebind it
-    return [e.value for e in val.elts]
+    return _str_seq(found[0], scope)
 
 
 def _no_rebinding(tree: ast.Module, cls: ast.ClassDef):
@@ -87,7 +114,7 @@ def _no_rebinding(tree: ast.Module, cls: ast.ClassDef):
             fail(n, "setattr in pipeline.py")
 
 
-def _ctor(cls: ast.ClassDef):
+def _ctor(cls: ast.ClassDef, scope: N.Scope):
     fn = find_func(cls, "__init__")
     a = fn.args
     if a.vararg or a.kwarg or a.posonlyargs or a.kwonlyargs:
@@ -99,16 +126,15 @@ def _ctor(cls: ast.ClassDef):
     if len(a.defaults) != len(kwargs) or not all(isinstance(d, ast.Constant) and d.value is None for d in a.defaults):
         fail(fn, "every constructor keyword must default to None")
     feeds = []
-    for st in body_no_doc(fn):
-        if isinstance(st, ast.AnnAssign):
-            tgt, val = st.target, st.value
-        elif isinstance(st, ast.Assign) and len(st.targets) == 1:
+    # after normalisation (helpers inlined, if/else -> conditional expression, `not k` flipped) every statement is
+    #     self._X = ModelGroup(k, name="n") if k else None
+    for st in _norm(scope, fn):
+        if isinstance(st, ast.Assign) and len(st.targets) == 1:
             tgt, val = st.targets[0], st.value
         else:
             fail(st, "__init__ may only assign the group attributes")
         if not _is_self_attr(tgt):
             fail(st, "__init__ may only assign self._<group>")
-        # ModelGroup(k, name="n") if k else None
         ok = (isinstance(val, ast.IfExp) and isinstance(val.test, ast.Name)
               and isinstance(val.orelse, ast.Constant) and val.orelse.value is None
               and isinstance(val.body, ast.Call) and isinstance(val.body.func, ast.Name)
@@ -124,6 +150,8 @@ def _ctor(cls: ast.ClassDef):
             fail(st, "unexpected ModelGroup arguments")
         if not (isinstance(models, ast.Name) and models.id == val.test.id):
             fail(st, "the tested keyword and the keyword passed to ModelGroup differ")
+        if isinstance(label, ast.Name) and scope.constant(label.id) is not None:
+            label = scope.constant(label.id)
         if not (isinstance(label, ast.Constant) and isinstance(label.value, str)):
             fail(st, "ModelGroup name must be a string literal")
         feeds.append((models.id, tgt.attr, label.value))
@@ -136,16 +164,28 @@ def _decorated_property(fn: ast.FunctionDef) -> bool:
     return len(fn.decorator_list) == 1 and isinstance(fn.decorator_list[0], ast.Name) and fn.decorator_list[0].id == "property"
 
 
-def _properties(cls: ast.ClassDef, groups: list[str]):
+def _returned_self_attr(scope: N.Scope, fn: ast.FunctionDef):
+    """X when the (normalised) function is `return self.X` / `return type(self).X` / `return <Class>.X`, else None"""
+    b = _norm(scope, fn)
+    if len(b) != 1 or not isinstance(b[0], ast.Return) or not isinstance(b[0].value, ast.Attribute):
+        return None
+    v = b[0].value
+    base = ast.unparse(v.value)
+    if base in ("self", "type(self)", "self.__class__") or (scope.cls is not None and base == scope.cls.name):
+        return v.attr
+    return None
+
+
+def _properties(cls: ast.ClassDef, groups: list[str], scope: N.Scope):
     props = []
     for st in cls.body:
         if isinstance(st, ast.FunctionDef) and st.name in groups:
             if not _decorated_property(st):
                 fail(st, "group accessor must be a plain @property")
-            b = body_no_doc(st)
-            if len(b) != 1 or not isinstance(b[0], ast.Return) or not _is_self_attr(b[0].value):
+            x = _returned_self_attr(scope, st)
+            if x is None:
                 fail(st, "group property must be `return self._<group>`")
-            props.append((st.name, b[0].value.attr))
+            props.append((st.name, x))
     if len({p[0] for p in props}) != len(props):
         raise TranslationError("a group property is defined twice")
     # __getattr__/__getattribute__ on the pipeline class would bypass the properties
@@ -155,28 +195,51 @@ def _properties(cls: ast.ClassDef, groups: list[str]):
     return props
 
 
-def _skip_text(test, grp, negate: bool) -> str:
-    """Condition under which the group is skipped, with the fetched group written GROUP; the two spellings of
-    "there is no such group" (falsy / is None: a ModelGroup defines neither __bool__ nor __len__) are "absent"."""
-    txt = ast.unparse(test)
+def _resolve_attr(scope: N.Scope, attr: str) -> str:
+    """follow trivial properties of the class: `model_group_names` -> `MODEL_GROUPS`"""
+    for _ in range(4):
+        fn = scope.methods.get(attr)
+        if fn is None or not _decorated_property(fn):
+            return attr
+        x = _returned_self_attr(scope, fn)
+        if x is None:
+            fail(fn, "property is not `return self.<attr>`")
+        attr = x
+    return attr
+
+
+def _skip_of(text: str, pol: bool, grp) -> str:
+    """One conjunct (text, polarity) of the condition under which the group RUNS, turned into the condition under
+    which it is SKIPPED, with the fetched group written GROUP; the two spellings of "there is no such group"
+    (falsy / is None: a ModelGroup defines neither __bool__ nor __len__) are "absent"."""
     if grp:
         import re
-        txt = re.sub(rf"\b{re.escape(grp)}\b", "GROUP", txt)
-    absent_pos = {"not GROUP", "GROUP is None"}
-    absent_neg = {"GROUP", "GROUP is not None"}
-    if (not negate and txt in absent_pos) or (negate and txt in absent_neg):
+        text = re.sub(rf"\b{re.escape(grp)}\b", "GROUP", text)
+    if (text == "GROUP" and pol) or (text == "GROUP is None" and not pol):
         return "absent"
-    return ("not (" + txt + ")") if negate else txt
+    return ("not (" + text + ")") if pol else text
 
 
-def _iterated(cls: ast.ClassDef, proc_tree: ast.Module, out_skips: list):
+def _loop_stmts_ok(stmts, allowed, where):
+    for st in stmts:
+        if N.is_noise(st):
+            continue
+        if isinstance(st, ast.If):
+            _loop_stmts_ok(st.body, allowed, where)
+            _loop_stmts_ok(st.orelse, allowed, where)
+        elif not isinstance(st, allowed):
+            fail(st, f"{where}: unexpected statement in the loop")
+
+
+def _iterated(cls: ast.ClassDef, pscope: N.Scope, proc_tree: ast.Module, mg_tree: ast.Module, out_skips: list):
     out = []
     # Processor.run_pipeline: `for g in self.pipeline.<attr>:` ... getattr(self.pipeline, g) ... .run(detector=self.detector, debug=debug)
     rp = find_func(proc_tree, "run_pipeline", cls="Processor")
-    loops = [n for n in body_no_doc(rp) if isinstance(n, (ast.For, ast.While))]
+    body = _norm(N.Scope(proc_tree, _cls(proc_tree, "Processor")), rp)
+    loops = [n for n in body if isinstance(n, (ast.For, ast.While))]
     if len(loops) != 1 or not isinstance(loops[0], ast.For) or loops[0].orelse:
         fail(rp, "run_pipeline must contain exactly one for loop")
-    others = [n for n in body_no_doc(rp) if not isinstance(n, (ast.For, ast.Expr, ast.Import, ast.ImportFrom))]
+    others = [n for n in body if not isinstance(n, (ast.For, ast.Expr))]
     if others:
         fail(others[0], "run_pipeline: unexpected statement")
     loop = loops[0]
@@ -184,109 +247,167 @@ def _iterated(cls: ast.ClassDef, proc_tree: ast.Module, out_skips: list):
     if not (isinstance(it, ast.Attribute) and _is_self_attr(it.value, "pipeline") and isinstance(loop.target, ast.Name)):
         fail(loop, "run_pipeline must iterate self.pipeline.<attr>")
     var = loop.target.id
-    out.append(("Processor.run_pipeline", it.attr))
+    # resolved through the trivial properties of DetectionPipeline (model_group_names -> MODEL_GROUPS)
+    out.append(("Processor.run_pipeline", _resolve_attr(pscope, it.attr)))
     getattrs = [n for n in ast.walk(loop) if isinstance(n, ast.Call) and isinstance(n.func, ast.Name) and n.func.id == "getattr"]
-    if len(getattrs) != 1 or len(getattrs[0].args) != 2 or not _is_self_attr(getattrs[0].args[0], "pipeline") \
-            or not (isinstance(getattrs[0].args[1], ast.Name) and getattrs[0].args[1].id == var):
+    ga = getattrs[0] if len(getattrs) == 1 else None
+    if ga is None or ga.keywords or len(ga.args) not in (2, 3) or not _is_self_attr(ga.args[0], "pipeline") \
+            or not (isinstance(ga.args[1], ast.Name) and ga.args[1].id == var) \
+            or (len(ga.args) == 3 and not (isinstance(ga.args[2], ast.Constant) and ga.args[2].value is None)):
         fail(loop, "run_pipeline must fetch getattr(self.pipeline, <loop variable>) once")
     runs = [n for n in ast.walk(loop) if isinstance(n, ast.Call) and isinstance(n.func, ast.Attribute) and n.func.attr == "run"]
     if len(runs) != 1:
         fail(loop, "run_pipeline must call <group>.run exactly once per iteration")
-    kws = {k.arg: k.value for k in runs[0].keywords}
-    if runs[0].args or set(kws) != {"detector", "debug"} or not _is_self_attr(kws["detector"], "detector") \
+    # positional arguments are named after ModelGroup.run's parameters
+    run_params = [a.arg for a in find_func(_cls(mg_tree, "ModelGroup"), "run").args.args][1:]
+    if len(runs[0].args) > len(run_params) or any(isinstance(a, ast.Starred) for a in runs[0].args):
+        fail(runs[0], "run must be called as run(detector=self.detector, debug=debug)")
+    kws = dict(zip(run_params, runs[0].args))
+    for k in runs[0].keywords:
+        if k.arg is None or k.arg in kws:
+            fail(runs[0], "run must be called as run(detector=self.detector, debug=debug)")
+        kws[k.arg] = k.value
+    if set(kws) != {"detector", "debug"} or not _is_self_attr(kws["detector"], "detector") \
             or not (isinstance(kws["debug"], ast.Name) and kws["debug"].id == "debug"):
         fail(runs[0], "run must be called as run(detector=self.detector, debug=debug)")
     for n in ast.walk(loop):
         if isinstance(n, (ast.Break, ast.Return)):
             fail(n, "run_pipeline loop leaves early")
-    # under which conditions is a group of the order NOT executed ?  (`if <test>: continue` before the call,
-    # or the call nested in `if <group>:`); the fetched group is written GROUP, "it is None / falsy" is "absent"
+    # under which conditions is a group of the order NOT executed ?  = the negation of each condition on the path to
+    # the call (enclosing ifs, guard clauses `if <test>: continue` before it, `and` / conditional expressions);
+    # the fetched group is written GROUP, "it is None / falsy" is "absent"
     grp = None
-    skips = []
     for st in loop.body:
-        if isinstance(st, (ast.Assign, ast.AnnAssign)) and st.value is getattrs[0]:
-            tgt = st.targets[0] if isinstance(st, ast.Assign) and len(st.targets) == 1 else getattr(st, "target", None)
+        if isinstance(st, ast.Assign) and st.value is ga:
+            tgt = st.targets[0] if len(st.targets) == 1 else None
             if not isinstance(tgt, ast.Name):
                 fail(st, "run_pipeline: the fetched group must be bound to a name")
             grp = tgt.id
-        elif isinstance(st, ast.If) and not st.orelse and isinstance(st.body[-1], ast.Continue) \
-                and all(isinstance(x, ast.Expr) for x in st.body[:-1]):
-            skips.append(_skip_text(st.test, grp, negate=False))
-        elif isinstance(st, ast.If) and not st.orelse and any(n is runs[0] for n in ast.walk(st)):
-            skips.append(_skip_text(st.test, grp, negate=True))
-            if any(isinstance(n, ast.Continue) for n in ast.walk(st)):
-                fail(st, "run_pipeline: continue next to the call")
-        elif isinstance(st, ast.Expr):
-            if any(isinstance(n, ast.Continue) for n in ast.walk(st)):
-                fail(st, "run_pipeline: unexpected statement in the loop")
-        else:
-            fail(st, "run_pipeline: unexpected statement in the loop")
+    _loop_stmts_ok([s for s in loop.body if not (isinstance(s, ast.Assign) and s.value is ga)],
+                   (ast.Expr, ast.Continue), "run_pipeline")
     if grp is None or ast.unparse(runs[0].func.value) != grp:
         fail(loop, "run_pipeline must call .run on the fetched group")
+    skips = []
+    for text, pol in N.reach_canon(loop, runs[0]):
+        s = _skip_of(text, pol, grp)
+        if s not in skips:
+            skips.append(s)
     out_skips.extend(skips)
     # model_group_names
     mg = find_func(cls, "model_group_names")
-    b = body_no_doc(mg)
-    if not _decorated_property(mg) or len(b) != 1 or not isinstance(b[0], ast.Return) or not _is_self_attr(b[0].value):
+    x = _returned_self_attr(pscope, mg)
+    if not _decorated_property(mg) or x is None:
         fail(mg, "model_group_names must be `return self.<attr>`")
-    out.append(("DetectionPipeline.model_group_names", b[0].value.attr))
-    # __iter__
+    out.append(("DetectionPipeline.model_group_names", x))
+    # __iter__ (helpers inlined)
     itf = find_func(cls, "__iter__")
-    b = body_no_doc(itf)
+    b = _norm(pscope, itf)
     if len(b) != 1 or not isinstance(b[0], ast.For) or not _is_self_attr(b[0].iter):
         fail(itf, "__iter__ must be one loop over self.<attr>")
-    out.append(("DetectionPipeline.__iter__", b[0].iter.attr))
+    out.append(("DetectionPipeline.__iter__", _resolve_attr(pscope, b[0].iter.attr)))
     return out
 
 
+def _plain_iter(e):
+    """`iter(X)` / `X.__iter__()` in the position of a loop source is X"""
+    while True:
+        if isinstance(e, ast.Call) and isinstance(e.func, ast.Name) and e.func.id == "iter" and len(e.args) == 1 and not e.keywords:
+            e = e.args[0]
+        elif isinstance(e, ast.Call) and isinstance(e.func, ast.Attribute) and e.func.attr == "__iter__" and not e.args and not e.keywords:
+            e = e.func.value
+        else:
+            return e
+
+
 def _model_group(tree: ast.Module):
+    import re
     cls = _cls(tree, "ModelGroup")
+    scope = N.Scope(tree, cls)
     it = find_func(cls, "__iter__")
-    b = body_no_doc(it)
-    # for model in self.models: if <guard>: yield model
-    if len(b) != 1 or not isinstance(b[0], ast.For) or not _is_self_attr(b[0].iter, "models") or b[0].orelse \
+    b = _norm(scope, it)
+    # `return (m for m in S if G)` / `return iter(..)` / `return filter(lambda m: G, S)`: lazy, the same as the loop
+    if len(b) == 1 and isinstance(b[0], ast.Return) and b[0].value is not None and N._lazy_source(b[0].value) is not None:
+        src = N._lazy_source(b[0].value)
+        b = [ast.fix_missing_locations(N._loop_of(src, [ast.Expr(value=ast.Yield(value=src[3]))]))]
+    # for model in self.models: <the loop variable is yielded under a guard>
+    if len(b) != 1 or not isinstance(b[0], ast.For) or not _is_self_attr(_plain_iter(b[0].iter), "models") or b[0].orelse \
             or not isinstance(b[0].target, ast.Name):
         fail(it, "ModelGroup.__iter__ must be one loop over self.models")
-    inner = b[0].body
-    if len(inner) != 1 or not isinstance(inner[0], ast.If) or inner[0].orelse or len(inner[0].body) != 1:
+    loop = b[0]
+    v = loop.target.id
+    ys = [n for n in N.own_walk(loop) if isinstance(n, (ast.Yield, ast.YieldFrom))]
+    if len(ys) != 1 or not (isinstance(ys[0], ast.Yield) and isinstance(ys[0].value, ast.Name) and ys[0].value.id == v):
+        fail(it, "ModelGroup.__iter__ must yield the loop variable, once")
+    _loop_stmts_ok(loop.body, (ast.Expr, ast.Continue), "ModelGroup.__iter__")
+    for n in ast.walk(loop):
+        if isinstance(n, (ast.Break, ast.Return)):
+            fail(n, "ModelGroup.__iter__ leaves early")
+    exprs = [s for s in ast.walk(loop) if isinstance(s, ast.Expr)]
+    if len(exprs) != 1 or exprs[0].value is not ys[0]:
         fail(it, "ModelGroup.__iter__ body must be `if <guard>: yield model`")
-    y = inner[0].body[0]
-    if not (isinstance(y, ast.Expr) and isinstance(y.value, ast.Yield) and isinstance(y.value.value, ast.Name)
-            and y.value.value.id == b[0].target.id):
-        fail(y, "ModelGroup.__iter__ must yield the loop variable")
-    guard = ast.unparse(inner[0].test)
+    conj = []
+    for text, pol in N.reach_canon(loop, exprs[0]):
+        text = re.sub(rf"\b{re.escape(v)}\b", "model", text)      # the loop variable's name is not pinned
+        conj.append(text if pol else f"not ({text})")
+    guard = " and ".join(conj) if conj else "True"
     run = find_func(cls, "run")
-    loops = [n for n in body_no_doc(run) if isinstance(n, ast.For)]
+    rb = _norm(scope, run)
+    loops = [n for n in rb if isinstance(n, ast.For)]
     if len(loops) != 1:
         fail(run, "ModelGroup.run must contain exactly one top-level for loop")
-    src = ast.unparse(loops[0].iter)
+    src = ast.unparse(_plain_iter(loops[0].iter))
     if not isinstance(loops[0].target, ast.Name):
         fail(loops[0], "ModelGroup.run loop target")
     var = loops[0].target.id
     # the model is called exactly once per iteration, with the detector only
-    calls = [n for n in ast.walk(loops[0]) if isinstance(n, ast.Call) and isinstance(n.func, ast.Name) and n.func.id == var]
-    if len(calls) != 1 or calls[0].keywords or len(calls[0].args) != 1 or ast.unparse(calls[0].args[0]) != "detector":
+    calls = [n for n in ast.walk(loops[0]) if isinstance(n, ast.Call)
+             and ((isinstance(n.func, ast.Name) and n.func.id == var)
+                  or (isinstance(n.func, ast.Attribute) and n.func.attr == "__call__" and isinstance(n.func.value, ast.Name)
+                      and n.func.value.id == var))]
+    okargs = False
+    if len(calls) == 1:
+        c = calls[0]
+        vals = [ast.unparse(a) for a in c.args] + [ast.unparse(k.value) for k in c.keywords]
+        okargs = vals == ["detector"] and all(k.arg == "detector" for k in c.keywords)
+    if not okargs:
         fail(loops[0], "ModelGroup.run must call `model(detector)` exactly once per iteration")
     return guard, src
 
 
 def _model_call(tree: ast.Module):
     cls = _cls(tree, "ModelFunction")
+    scope = N.Scope(tree, cls)
     fn = find_func(cls, "__call__")
     if [a.arg for a in fn.args.args] != ["self", "detector"]:
         fail(fn, "ModelFunction.__call__ signature")
-    calls = [n for n in ast.walk(fn) if isinstance(n, ast.Call) and _is_self_attr(n.func, "func")]
+    body = ast.Module(body=_norm(scope, fn), type_ignores=[])
+    calls = [n for n in ast.walk(body) if isinstance(n, ast.Call) and _is_self_attr(n.func, "func")]
     if len(calls) != 1:
         fail(fn, "ModelFunction.__call__ must call self.func exactly once")
     c = calls[0]
-    parts = [ast.unparse(a) for a in c.args] + [("**" if k.arg is None else k.arg + "=") + ast.unparse(k.value) for k in c.keywords]
-    for n in ast.walk(fn):
+    # `self._x` is written as the public property that returns it (`self._arguments` == `self.arguments`)
+    priv = {}
+    for m in cls.body:
+        if isinstance(m, ast.FunctionDef) and _decorated_property(m):
+            try:
+                x = _returned_self_attr(scope, m)
+            except TranslationError:
+                x = None
+            if x is not None and x != m.name:
+                priv["self." + x] = "self." + m.name
+
+    def txt(e):
+        t = ast.unparse(e)
+        return priv.get(t, t)
+
+    parts = [txt(a) for a in c.args] + [("**" if k.arg is None else k.arg + "=") + txt(k.value) for k in c.keywords]
+    for n in ast.walk(body):
         if isinstance(n, (ast.For, ast.While, ast.If, ast.Try)):
             fail(n, "ModelFunction.__call__ has control flow")
     return parts
 
 
-def _self_attrs_assigned(fn: ast.FunctionDef) -> list[str]:
+def _self_attrs_assigned(fn) -> list[str]:
     """names X of every `self.X = ...` / `self.X: T = ...` statement of the function (any nesting), in order"""
     out = []
     for n in ast.walk(fn):
@@ -296,16 +417,23 @@ def _self_attrs_assigned(fn: ast.FunctionDef) -> list[str]:
         elif isinstance(n, (ast.AnnAssign, ast.AugAssign)):
             tgts = [n.target]
         for t in tgts:
-            if _is_self_attr(t) and t.attr not in out:
-                out.append(t.attr)
+            for t1 in (t.elts if isinstance(t, (ast.Tuple, ast.List)) else [t]):
+                if _is_self_attr(t1) and t1.attr not in out:
+                    out.append(t1.attr)
     return out
 
 
 def _group_state(tree: ast.Module):
     """What a ModelGroup carries (attributes set by __init__) and what __setstate__ restores after a pickle
-    round trip; without __setstate__ / __getstate__ the default pickling restores everything."""
+    round trip; without __setstate__ / __getstate__ the default pickling restores everything.  Helper methods
+    called by the two are inlined first."""
     cls = _cls(tree, "ModelGroup")
-    init = _self_attrs_assigned(find_func(cls, "__init__"))
+    scope = N.Scope(tree, cls)
+
+    def attrs(fn):
+        return _self_attrs_assigned(ast.Module(body=N.Normaliser(scope).normalise(fn), type_ignores=[]))
+
+    init = attrs(find_func(cls, "__init__"))
     sets = [n for n in cls.body if isinstance(n, ast.FunctionDef) and n.name == "__setstate__"]
     gets = [n for n in cls.body if isinstance(n, ast.FunctionDef) and n.name == "__getstate__"]
     if not sets and not gets:
@@ -316,29 +444,29 @@ def _group_state(tree: ast.Module):
         if isinstance(n, ast.Call) and isinstance(n.func, ast.Attribute) and n.func.attr == "update" \
                 and ast.unparse(n.func.value) == "self.__dict__":
             raise TranslationError("ModelGroup.__setstate__ updates __dict__ wholesale: restored attributes unknown")
-    return init, _self_attrs_assigned(sets[0])
+    return init, attrs(sets[0])
 
 
 def _intermediate_reads(tree: ast.Module):
     """Every read of `detector.intermediate` (the property raises while `_intermediate` is None) in
-    exposure.run_pipeline: "guarded" when it sits under an `if` / conditional expression whose test looks at
-    `_intermediate`, else "bare"."""
-    fn = find_func(tree, "run_pipeline")
-    parent = {}
-    for n in ast.walk(fn):
-        for c in ast.iter_child_nodes(n):
-            parent[c] = n
-    out = []
-    for n in ast.walk(fn):
-        if isinstance(n, ast.Attribute) and n.attr == "intermediate" and isinstance(n.ctx, ast.Load):
-            guarded = False
-            cur = n
-            while cur in parent:
-                up = parent[cur]
-                if isinstance(up, (ast.If, ast.IfExp)) and cur is not up.test and "_intermediate" in ast.unparse(up.test):
-                    guarded = True
-                cur = up
-            out.append("guarded" if guarded else "bare")
+    exposure.run_pipeline and in the module-level helpers it calls (those that can be inlined are): "guarded" when
+    one of the conditions under which the read is evaluated (enclosing if / conditional expression / `and`, or a
+    guard clause before it) looks at `_intermediate`, else "bare"."""
+    scope = N.Scope(tree, None)
+    todo, seen, out = ["run_pipeline"], set(), []
+    while todo:
+        name = todo.pop(0)
+        if name in seen:
+            continue
+        seen.add(name)
+        fn = find_func(tree, name)
+        root = ast.Module(body=N.Normaliser(scope).normalise(fn), type_ignores=[])
+        for n in ast.walk(root):
+            if isinstance(n, ast.Attribute) and n.attr == "intermediate" and isinstance(n.ctx, ast.Load):
+                conds = N.reach(root, n)
+                out.append("guarded" if any("_intermediate" in ast.unparse(t) for t, _ in conds) else "bare")
+            if isinstance(n, ast.Call) and isinstance(n.func, ast.Name) and n.func.id in scope.funcs and n.func.id not in seen:
+                todo.append(n.func.id)
     return out
 
 
@@ -388,13 +516,15 @@ def translate(repo: Path, runtime: bool = True) -> str:
     repo = Path(repo)
     ptree = parse(repo, "pyxel/pipelines/pipeline.py")
     cls = _cls(ptree, "DetectionPipeline")
-    groups = _model_groups(cls)
+    pscope = N.Scope(ptree, cls)
+    groups = _model_groups(cls, pscope)
     _no_rebinding(ptree, cls)
-    kwargs, feeds = _ctor(cls)
-    props = _properties(cls, groups + kwargs)
+    kwargs, feeds = _ctor(cls, pscope)
+    props = _properties(cls, groups + kwargs, pscope)
     skips: list = []
-    iterated = _iterated(cls, parse(repo, "pyxel/pipelines/processor.py"), skips)
-    guard, run_src = _model_group(parse(repo, "pyxel/pipelines/model_group.py"))
+    mg_tree = parse(repo, "pyxel/pipelines/model_group.py")
+    iterated = _iterated(cls, pscope, parse(repo, "pyxel/pipelines/processor.py"), mg_tree, skips)
+    guard, run_src = _model_group(mg_tree)
     call_parts = _model_call(parse(repo, "pyxel/pipelines/model_function.py"))
     if runtime:
         rt = _runtime(repo)
@@ -416,7 +546,7 @@ _ASSIGN_ORDER = ["scene_generation", "photon_collection", "phasing", "charge_gen
 
 # the last accepted shape (unchanged tree); keeps a model available for the failing-input search
 FALLBACK = render(_G, _G, [(g, "_" + g, g) for g in _ASSIGN_ORDER], [(g, "_" + g) for g in _G],
-                  [("Processor.run_pipeline", "model_group_names"),
+                  [("Processor.run_pipeline", "MODEL_GROUPS"),
                    ("DetectionPipeline.model_group_names", "MODEL_GROUPS"),
                    ("DetectionPipeline.__iter__", "MODEL_GROUPS")],
                   "model.enabled", "self", ["detector", "**self.arguments"])
